@@ -45,6 +45,7 @@ type CallAssert struct {
 	Callee string // substring of callee key
 	Ord    int    // 1-based among calls matching Callee; 0 = every
 	Clause Clause
+	Used   bool // set when a call site of the function under verification matched it
 }
 
 type FuncContract struct {
